@@ -133,11 +133,16 @@ func H_c12(p []int) {
 	s := string(bs)
 	hs := string(vBytes(n))
 	vSite(fmt.Sprintf("probe=%d history=%v", probe, p[2:]))
+	vPoolAdversarial(false)
 	r0 := c12Probe(probe, s) // first call in the process: fresh printers
 	for _, h := range p[2:] {
 		c12History(h, hs)
 	}
+	// the probe may now be served any printer freed so far, or a new one
+	vPoolAdversarial(true)
+	before := vPoolReuses()
 	r1 := c12Probe(probe, s)
+	vCover(vPoolReuses() > before, "probe-ran-on-recycled-printer")
 	vObserve("fresh", r0)
 	vObserve("after", r1)
 	vAssert(bytesEq(r0, r1), "C12/history-independent")
